@@ -125,6 +125,9 @@ class Owner:
         bev = calls[0][2]
         if bev[0] != "struct":
             raise Undecided("backend value is %s" % bev[0])
+        # the (abstract) driver did nothing: the owner's state must be what it was on entry, i.e.
+        # nothing around the driver call (e.g. a Drop impl of the transient backend) touches it
+        self.state_after = paths[0]["cells"].get("self")
         fmap = {}
         for fname, v in bev[2].items():
             if v[0] == "ref":
